@@ -305,6 +305,17 @@ def run(tier):
                 nat = import_dup_case(art["replay"], body, acc, where, shape, crlf); nat_n += 1
                 if not nat["ok"]:
                     fnd.report("wrong-line:%s" % name, "%s in %s after %d lines of preceding text: reported at %s, written at %s" % (name, where, len(shape), nat.get("got") or nat.get("why"), nat.get("expected")), nat["files"], cmd="sylt --no-std -o out.lua main.sy")
+    # a user definition that collides with a name the bundled preamble imports into every file: the construct the user wrote is in the user's file
+    for uname in ("print", "max"):
+        for pre_lines in (0, 3):
+            text = "// c\n" * pre_lines + "start :: fn do\nend\n\n%s :: fn x do\nend\n" % uname
+            rc, lua, outp = common.compile_sy(art["sylt"], {"main.sy": text}); nat_n += 1
+            m0 = re.search(r"error: (.*?):(\d+)", outp)
+            want = ("main.sy", pre_lines + 4)
+            if rc == 0 or not m0: fnd.undecided("definition of %s next to the bundled one: no located error (%s)" % (uname, outp[:120]))
+            elif (m0.group(1), int(m0.group(2))) != want:
+                fnd.report("wrong-file:duplicate_of_a_bundled_name", "a user definition of `%s` (main.sy:%d) collides with the bundled preamble's import: reported at %s:%s, written at %s:%d" % (uname, want[1], m0.group(1), m0.group(2), want[0], want[1]), {"main.sy": text}, cmd="sylt -o out.lua main.sy")
+                break
     cov = {"states": max(1, tot["paths"]), "transitions": max(1, tot["queries"] + stats.queries), "traces_validated_against_impl": nat_n, "samples": samples or [{"note": "none"}],
            "error_kinds": allk + list(SYNTAX), "mir_statements": tot["steps"], "functions_encoded": ["name_resolution::resolve", "dependency::initialization_order", "typechecker::solve"],
            "bounds": {"symbolic": "line map ell: strictly increasing, otherwise arbitrary", "files": 2, "native_preceding_text_shapes_per_case": 2 if tier == "quick" else 6}, "known_findings_seen": sorted(fnd.seen_known)}
